@@ -3,7 +3,7 @@
 (tests still pass with it, its demonstration fails with it and passes without it), runs the
 registered check(s) against it on /repo (patch applied, then reverted) and records the outcome.
 
-  tools/eval_seeded.py import /tmp/seedout          # confirm + copy into /verif/seeded/<id>/
+  tools/eval_seeded.py import /tmp/seedout [Cxx ...] # confirm + copy into /verif/seeded/<id>/
   tools/eval_seeded.py run [<id> ...] [--extra]     # apply to /repo, run ./check <property>, revert
   tools/eval_seeded.py table                        # markdown summary
 """
@@ -56,12 +56,16 @@ def confirm(src: Path, wt: Path):
     return out
 
 
-def do_import(srcroot):
+def do_import(srcroot, only=()):
     for pd in sorted(Path(srcroot).glob("C*")):
         pid = pd.name
+        if only and pid not in only:
+            continue
         wt = Path(f"/tmp/seed-{pid}")
         for sd in sorted(p for p in pd.iterdir() if p.is_dir() and (p / "patch.diff").exists()):
             sid = f"{pid}-{sd.name}"
+            if (SEEDED / sid / "meta.json").exists():
+                continue
             res = confirm(sd, wt)
             print(sid, "confirmed" if res.get("ok") else "REJECTED", json.dumps(res)[:300], flush=True)
             if not res.get("ok"):
@@ -135,7 +139,7 @@ def do_table():
 if __name__ == "__main__":
     cmd = sys.argv[1]
     if cmd == "import":
-        do_import(sys.argv[2])
+        do_import(sys.argv[2], sys.argv[3:])
     elif cmd == "run":
         a = [x for x in sys.argv[2:] if not x.startswith("--")]
         do_run(a, extra="--extra" in sys.argv)
